@@ -121,6 +121,20 @@ def judge(n, s, tag, probs, phase):
         ask(s.get_hpins, (x for x in [href]), "get_hpins(generator)", exp)
         ask(s.get_hwires, (x for x in [href]), "get_hwires(generator,ALL)", cls_of[me], selection=ALL)
         ask(s.get_hcables, (x for x in [href]), "get_hcables(generator,ALL)", set(x[:-1] for x in cls_of[me]), selection=ALL)
+        # the start given as a list the caller keeps: asked twice, the list is left as it was
+        roots = [href]
+        ask(s.get_hwires, roots, "get_hwires(list,ALL)", cls_of[me], selection=ALL)
+        ask(s.get_hcables, roots, "get_hcables(list,ALL)", set(x[:-1] for x in cls_of[me]), selection=ALL)
+        ask(s.get_hcables, roots, "get_hcables(list,ALL):again", set(x[:-1] for x in cls_of[me]), selection=ALL)
+        ask(s.get_hwires, roots, "get_hwires(list,ALL):again", cls_of[me], selection=ALL)
+        ask(s.get_hpins, roots, "get_hpins(list):again", exp)
+        if len(roots) != 1 or roots[0] is not href:
+            probs.append(("query-changed-the-callers-list" + phase, "%s: a list holding one reference holds %d afterwards" % (tag, len(roots))))
+        # a caller's filter selects among the members of the net, it does not stop the trace
+        even = lambda h: len(chain(h)) % 2 == 0
+        ask(s.get_hwires, href, "get_hwires(hwire,ALL,filter)", set(x for x in cls_of[me] if len(x) % 2 == 0), selection=ALL, filter=even)
+        ask(s.get_hwires, href, "get_hwires(hwire,ALL,filter-odd)", set(x for x in cls_of[me] if len(x) % 2 == 1), selection=ALL, filter=lambda h: not even(h))
+        ask(s.get_hcables, href, "get_hcables(hwire,ALL,filter)", set(x[:-1] for x in cls_of[me] if len(x) % 2 == 1), selection=ALL, filter=even)
     # element roots: every occurrence of the wire
     for wid, (w, union) in by_wire.items():
         ask(s.get_hwires, w, "get_hwires(wire,ALL)", union, selection=ALL)
@@ -178,8 +192,10 @@ def cases(tier):
         if tier == "thorough" or desc[0] in ("K1-chain2", "K8-bus") or sum(desc[1]) % 9 == 0:
             out.append((desc, "asc", "edited"))
             out.append((desc, "asc", "edited-by-handle"))
+            out.append((desc, "asc", "after-refused-edits"))
     for desc in design.shape_family(5 if tier == "thorough" else 4):
         out.append((desc, "asc"))
+        out.append((desc, "asc", "after-refused-edits"))
         out.append((desc, "asc", "edited"))
         out.append((desc, "asc", "edited-by-handle"))
     out += [(desc, order) for desc in design.family_hier(tier, variants=("plain", "dangling-nets")) for order in core.ORDER_VARIANTS]
